@@ -210,6 +210,7 @@ static void dump_ver(void) {
     }
     if (v->files[level].length == 0) fputc('.', stdout);
   }
+  printf(" M=%llu", (unsigned long long)g_db->versions->manifest_file_number);
   fputc('\n', stdout);
   ldb_mutex_unlock(&g_db->mutex);
 }
@@ -334,6 +335,41 @@ static void iter_report(ldb_iter_t *it, uint64_t seq, const char *op) {
 /* For journal prefixes n = from, from+stride, .. <= to and every image variant: materialise, reopen with the real
    code, dump all internal entries (`crash` line).  With follow: then write three sync batches, close, reopen, dump
    again (`crash2` line) -- writes made after recovery must win and persist. */
+#define MAXIT 16
+static ldb_iter_t *g_it[MAXIT]; static uint64_t g_itseq[MAXIT];
+
+/* apply a comma list of iterator ops; one `it` line per op (id >= 0: long-lived iterator `it@<id>`) */
+static void run_iter_ops(ldb_iter_t *it, uint64_t seq, char *ops, int id) {
+  static char *of[MAXL]; int n = split_on(ops, ',', of, MAXL), i; char tag[32];
+  if (id >= 0) snprintf(tag, sizeof(tag), "it@%d", id); else snprintf(tag, sizeof(tag), "it");
+  for (i = 0; i < n; i++) {
+    char *op = of[i]; ldb_slice_t k; char opcopy[600];
+    snprintf(opcopy, sizeof(opcopy), "%s", op);
+    if (!strcmp(op, "F")) ldb_iter_first(it);
+    else if (!strcmp(op, "L")) ldb_iter_last(it);
+    else if (!strcmp(op, "N")) { if (!ldb_iter_valid(it)) { printf("%s %llu N -> skip\n", tag, (unsigned long long)seq); continue; } ldb_iter_next(it); }
+    else if (!strcmp(op, "P")) { if (!ldb_iter_valid(it)) { printf("%s %llu P -> skip\n", tag, (unsigned long long)seq); continue; } ldb_iter_prev(it); }
+    else {
+      char *colon = strchr(op, ':');
+      if (!colon || !parse_bytes(colon + 1, &g_a)) { printf("err bad iter op\n"); continue; }
+      k = ldb_slice(g_a.p, g_a.n); *colon = 0;
+      if (!strcmp(op, "S")) ldb_iter_seek(it, &k);
+      else if (!strcmp(op, "GE")) ldb_iter_seek_ge(it, &k);
+      else if (!strcmp(op, "GT")) ldb_iter_seek_gt(it, &k);
+      else if (!strcmp(op, "LE")) ldb_iter_seek_le(it, &k);
+      else if (!strcmp(op, "LT")) ldb_iter_seek_lt(it, &k);
+      else { printf("err bad iter op\n"); continue; }
+      { int len = snprintf(opcopy, sizeof(opcopy), "%s:", op); size_t j; for (j = 0; j < g_a.n && len < 590; j++) len += snprintf(opcopy + len, sizeof(opcopy) - len, "%02x", g_a.p[j]); if (g_a.n == 0) snprintf(opcopy + len, sizeof(opcopy) - len, "-"); }
+    }
+    printf("%s %llu %s -> ", tag, (unsigned long long)seq, opcopy);
+    if (ldb_iter_valid(it)) {
+      ldb_slice_t kk = ldb_iter_key(it), v = ldb_iter_value(it);
+      printf("1 "); print_hex(stdout, kk.data, kk.size); fputc(' ', stdout); val_token(stdout, v.data, v.size);
+    } else printf("0 - -");
+    printf(" %d\n", ldb_iter_status(it));
+  }
+}
+
 static void crash_points(int from, int to, int stride, const char *vars, const char *imgdir, int follow) {
   int n, vi, saved = g_journal; long savedfault = g_fault_at;
   g_journal = 0; g_fault_at = -1;
@@ -391,6 +427,7 @@ static void handle(char *line) {
   } else if (nf == 1 && !strcmp(f[0], "close")) {
     int i;
     if (!g_db) { printf("err not open\n"); return; }
+    for (i = 0; i < MAXIT; i++) if (g_it[i]) { ldb_iter_destroy(g_it[i]); g_it[i] = NULL; }
     for (i = 0; i < MAXSNAP; i++) if (g_snap[i]) { ldb_release(g_db, g_snap[i]); g_snap[i] = NULL; }
     wait_quiescent(); flush_bg_events();
     if (g_journal) jmark("close-begin");
@@ -483,6 +520,26 @@ static void handle(char *line) {
     dump_ver();
   } else if (nf == 1 && !strcmp(f[0], "ls")) {
     do_ls();
+  } else if ((nf == 2 || nf == 3) && !strcmp(f[0], "iopen")) {
+    /* iopen <id> [snapid]: long-lived iterator (pins memtables and the current version) */
+    int id = atoi(f[1]); ldb_readopt_t ro = *ldb_readopt_default; uint64_t seq;
+    int sid = nf == 3 ? atoi(f[2]) : -1;
+    if (id < 0 || id >= MAXIT || g_it[id]) { printf("err bad iterator id\n"); return; }
+    if (sid >= 0 && (sid >= MAXSNAP || !g_snap[sid])) { printf("err bad snap\n"); return; }
+    if (sid >= 0) { ro.snapshot = g_snap[sid]; seq = g_snap[sid]->sequence; } else seq = g_db->versions->last_sequence;
+    g_it[id] = ldb_iterator(g_db, &ro); g_itseq[id] = seq;
+    printf("iopen %d %llu\n", id, (unsigned long long)seq);
+  } else if (nf == 3 && !strcmp(f[0], "iop")) {
+    int id = atoi(f[1]);
+    if (id < 0 || id >= MAXIT || !g_it[id]) { printf("err bad iterator id\n"); return; }
+    run_iter_ops(g_it[id], g_itseq[id], f[2], id);
+    after_op();
+  } else if (nf == 2 && !strcmp(f[0], "iclose")) {
+    int id = atoi(f[1]);
+    if (id < 0 || id >= MAXIT || !g_it[id]) { printf("err bad iterator id\n"); return; }
+    ldb_iter_destroy(g_it[id]); g_it[id] = NULL;
+    printf("iclose %d\n", id);
+    after_op();
   } else if (nf == 3 && !strcmp(f[0], "iter")) {
     /* iter <snapid|-> <ops>: F L N P S:<key> GE:/GT:/LE:/LT:<key>; one `it` line per op */
     ldb_readopt_t ro = *ldb_readopt_default; ldb_iter_t *it; static char *of[MAXL]; int n, i; uint64_t seq;
@@ -490,29 +547,8 @@ static void handle(char *line) {
     if (sid >= 0 && (sid >= MAXSNAP || !g_snap[sid])) { printf("err bad snap\n"); return; }
     if (sid >= 0) { ro.snapshot = g_snap[sid]; seq = g_snap[sid]->sequence; } else seq = g_db->versions->last_sequence;
     it = ldb_iterator(g_db, &ro);
-    n = split_on(f[2], ',', of, MAXL);
-    for (i = 0; i < n; i++) {
-      char *op = of[i]; ldb_slice_t k; char opcopy[600];
-      snprintf(opcopy, sizeof(opcopy), "%s", op);
-      if (!strcmp(op, "F")) ldb_iter_first(it);
-      else if (!strcmp(op, "L")) ldb_iter_last(it);
-      else if (!strcmp(op, "N")) { if (!ldb_iter_valid(it)) { printf("it %llu N -> skip\n", (unsigned long long)seq); continue; } ldb_iter_next(it); }
-      else if (!strcmp(op, "P")) { if (!ldb_iter_valid(it)) { printf("it %llu P -> skip\n", (unsigned long long)seq); continue; } ldb_iter_prev(it); }
-      else {
-        char *colon = strchr(op, ':');
-        if (!colon || !parse_bytes(colon + 1, &g_a)) { printf("err bad iter op\n"); continue; }
-        k = ldb_slice(g_a.p, g_a.n); *colon = 0;
-        if (!strcmp(op, "S")) ldb_iter_seek(it, &k);
-        else if (!strcmp(op, "GE")) ldb_iter_seek_ge(it, &k);
-        else if (!strcmp(op, "GT")) ldb_iter_seek_gt(it, &k);
-        else if (!strcmp(op, "LE")) ldb_iter_seek_le(it, &k);
-        else if (!strcmp(op, "LT")) ldb_iter_seek_lt(it, &k);
-        else { printf("err bad iter op\n"); continue; }
-        /* canonical op text: kind + full hex of the key */
-        { int len = snprintf(opcopy, sizeof(opcopy), "%s:", op); size_t j; for (j = 0; j < g_a.n && len < 590; j++) len += snprintf(opcopy + len, sizeof(opcopy) - len, "%02x", g_a.p[j]); if (g_a.n == 0) snprintf(opcopy + len, sizeof(opcopy) - len, "-"); }
-      }
-      iter_report(it, seq, opcopy);
-    }
+    (void)n; (void)i; (void)of;
+    run_iter_ops(it, seq, f[2], -1);
     ldb_iter_destroy(it);
     after_op();
   } else {
